@@ -865,7 +865,7 @@ func (c *chooser) pick(ps []*gproc, all []*gproc) *gproc {
 				}
 			}
 			// ... and one class of processes runs ahead of the others while it is held
-			if c.favor != "" && len(c.held) > 0 && c.rng.Intn(8) != 0 {
+			if c.favor != "" && (len(c.held) > 0 || c.who == "") && c.rng.Intn(8) != 0 {
 				for _, p := range rest {
 					if len(p.name) >= len(c.favor) && p.name[:len(c.favor)] == c.favor {
 						return p
